@@ -81,11 +81,21 @@ def run(ctx):
         "re-observation requests (foreign contract, other topic, topic-less foreign log, nil log, undecodable data, failed tx, "
         "depth at -2..+2 of the boundary, head moving while the receipt request is in flight, block-number failure, head 0); "
         "every chain-id class (Ethereum finalized tag / dev mode / other chains) and both confirmation modes; plus fixed scenarios "
-        "for every jump size 0,1,9,59,60,61,70,500 beyond height+conf in 16 configurations. Synchronised by barriers (RPC requests seen "
-        "by the node, the watcher's own log lines, pointer identity of pending entries, an unbuffered request channel); no sleeps, "
+        "for every jump size 0,1,9,59,60,61,70,500 beyond height+conf in 16 configurations. Op `race` (24 fixed scenarios + a "
+        "generated choice whenever something is pending): the node moves to a head at which a pending message has reached its depth "
+        "and HOLDS the answer to the scan's first eth_getTransactionReceipt; meanwhile the log of a new message is pushed to the "
+        "subscription; the answer is released only when the log goroutine has gone as far as it can (entry present in w.pending, or "
+        "the goroutine parked on pendingMu - read from goroutine states); later heads must forward the new message exactly once. "
+        "Fixed re-observation scenarios on a chain read at finalized height (finalized 100 / latest 132, block at -1,0,+1,+21,+32,+33 "
+        "of the finalized head, request repeated when finality catches up) with dev mode as control; the fake node also serves "
+        "eth_blockNumber (= latest head) and every head read of a re-observation is recorded (`hq`). "
+        "Synchronised by barriers (RPC requests seen "
+        "by the node, the watcher's own log lines, pointer identity of pending entries, an unbuffered request channel, goroutine "
+        "states of the poller / the log goroutine); no sleeps, "
         "no wall-clock values in the output. direct cases: MessageEventsForTransaction / getBlock / pollBlocks with a scripted "
         "Connector (panics recovered). Compared per op: processed heads, receipt and block-time lookups, forwarded messages (all "
-        "fields), per-message outcome, pending set with heights, poller enabled flag, Run exit kind, re-observation decisions in order. "
+        "fields), per-message outcome, pending set with heights, poller enabled flag, Run exit kind, re-observation decisions in order, "
+        "the block tag / method of the re-observation head read, whether a log delivered during a scan was inserted during or after it. "
         "distinct_nontrivial = cases (one Run, or one direct call) on which model and implementation agreed on every op and the Spec "
         "held on the implementation's results")
     ctx.cov["trusted_base"] += [
